@@ -51,6 +51,8 @@ func (s StatusCode) String() string {
 		return "The request was successful"
 	case StatusFieldValidationError:
 		return "The request is invalid"
+	case StatusCallbackInvalidPromise:
+		return "The promise and the root promise of a callback must be different"
 	case StatusPromiseAlreadyResolved:
 		return "The promise has already been resolved"
 	case StatusPromiseAlreadyRejected:
@@ -87,6 +89,8 @@ func (s StatusCode) String() string {
 		return "There was an internal server error"
 	case StatusAIOEchoError:
 		return "There was an error in the echo subsystem"
+	case StatusAIOMatchError:
+		return "There was an error in the match subsystem"
 	case StatusAIOQueueError:
 		return "There was an error in the queue subsystem"
 	case StatusAIOStoreError:
